@@ -51,7 +51,9 @@ CONSTANTS
     MaxReq,                \* bound: no-route requests
     WatchMan, WatchNr,     \* switch the two watcher pipelines on/off (to model-check the parts separately)
     CreateIgnoresVersion,
-    RoRefusesReads
+    RoRefusesReads,
+    AbsentIsZero           \* convention: a missing document is read with version 0 (FALSE: with the index
+                           \* of the KV table, which is what the Consul-backed ReadManual hands out)
 
 None == "-"                \* "no text": absent document, empty page
 
@@ -90,7 +92,7 @@ Absent == [present |-> FALSE, val |-> None, mi |-> 0]
 \* what a reader of document p gets: (text, version).  Consul answers a GET of a missing key with
 \* the index of the KV table, never 0.
 ReadVal(p) == doc[p].val
-ReadVer(p) == IF doc[p].present THEN doc[p].mi ELSE gidx
+ReadVer(p) == IF doc[p].present THEN doc[p].mi ELSE IF AbsentIsZero THEN 0 ELSE gidx
 \* the content below the prefix, and the index Consul reports for a list of the prefix: the largest
 \* ModifyIndex / graveyard index below it, or the table index when there never was anything
 Content == [p \in Paths |-> doc[p].val]
@@ -103,7 +105,8 @@ NIdx    == LET m == Max({nr.mi, nrTomb}) IN IF m = 0 THEN gidx ELSE m
 ConsulCas(p, ver) == IF ver = 0 THEN ~doc[p].present ELSE doc[p].present /\ doc[p].mi = ver
 \* "the version of the stored document still matches version": nothing happened to the document
 \* since that version was current.  0 stands for "there is no document".
-Fresh(p, ver) == IF doc[p].present THEN ver = doc[p].mi ELSE ver = 0 \/ ver >= lastChg[p]
+Fresh(p, ver) == IF doc[p].present THEN ver = doc[p].mi
+                 ELSE ver = 0 \/ (~AbsentIsZero /\ ver >= lastChg[p])
 
 Store(p, v) == /\ gidx' = gidx + 1
                /\ doc' = [doc EXCEPT ![p] = [present |-> TRUE, val |-> v, mi |-> gidx + 1]]
